@@ -195,7 +195,16 @@ func propC11(c *Ctx) {
 	if c.Thorough {
 		nRand = 60000
 	}
-	wide := []rune{'x', 'y', '\n', '\r', '\n', '\r', 0xe9, 0x4e16, 0x1f600, ' '}
+	// characters whose low 16 (or 8) bits are those of LF / CR are ordinary characters
+	look := []rune{'x', 0x1000a, 0x2000d, '\n', '\r', 0x10a, 0x20d, 0x10000a}
+	enumStrings(look, 3, func(content []rune) {
+		cc := append([]rune(nil), content...)
+		scanSpecCase(c, cc)
+		for _, ops := range [][]string{{"r", "r", "r", "r", "u", "u", "u", "r"}, {"r", "u", "r", "r", "u", "r", "r", "m2", "r"}, {"r", "r", "m2", "r", "r", "r", "u"}} {
+			runScanCase(c, cc, ops)
+		}
+	})
+	wide := []rune{'x', 'y', '\n', '\r', '\n', '\r', 0xe9, 0x4e16, 0x1f600, ' ', 0x1000a, 0x2000d, 0x10000d, 0x20a}
 	allOps := []string{"r", "r", "r", "u", "m2", "m3", "p", "l", "c", "x"}
 	for i := 0; i < nRand; i++ {
 		n := c.Rng.Intn(40)
@@ -240,6 +249,12 @@ func propC11(c *Ctx) {
 func replayC11(c *Ctx, op string) {
 	f := strings.Fields(op)
 	if len(f) < 2 {
+		return
+	}
+	if f[0] == "scanhuge" {
+		var n int
+		fmt.Sscanf(f[1], "%d", &n)
+		propScanHuge(c, n)
 		return
 	}
 	if f[0] == "scanspec" {
